@@ -32,6 +32,7 @@ func (w *world) doReserve(op opT) string {
 		return "skipped (not connected)"
 	}
 	w.takeDisc()
+	w.noteRelayed()
 	ips := w.ipsSeen(cl)
 	before := w.firedCounts()
 	w.arm(op, cl, nil)
@@ -78,6 +79,7 @@ func (w *world) judgeReserve(cl *cli, ips []string, r rsvResult, faulted bool, g
 	c, m := w.cfg, w.m
 	name := c.name(cl.idx)
 	aclDeny := c.denyRsv == cl.idx
+	relayed := w.relNow[cl.idx]
 	cnt := m.count(cl.idx, ips, r.t0, r.t1, gone)
 	// in a batch, reservations granted concurrently may have been counted before this request
 	mayExtra, mayExtraIP, mayExtraAS := 0, 0, 0
@@ -99,7 +101,7 @@ func (w *world) judgeReserve(cl *cli, ips []string, r rsvResult, faulted bool, g
 	switch r.status {
 	case pbv2.Status_OK:
 		w.granted++
-		if cl.relayed {
+		if relayed {
 			w.violate("C11/reservation-granted/over-relayed-connection", "%s reached the relay through R2 and was granted a reservation", name)
 		}
 		if aclDeny {
@@ -141,10 +143,10 @@ func (w *world) judgeReserve(cl *cli, ips []string, r rsvResult, faulted bool, g
 			w.o.Probe("reserve-refused-per-asn-cap")
 		}
 	case pbv2.Status_PERMISSION_DENIED:
-		if !cl.relayed && !aclDeny && !faulted {
+		if !relayed && !aclDeny && !faulted {
 			w.violate("C11/reservation-denied-without-cause", "%s (direct connection, allowed by the ACL) got PERMISSION_DENIED", name)
 		}
-		if cl.relayed {
+		if relayed {
 			w.o.Probe("reserve-refused-relayed")
 		}
 		if aclDeny {
@@ -268,6 +270,7 @@ func (w *world) doConnect(op opT) string {
 		return "skipped (source not connected)"
 	}
 	w.takeDisc()
+	w.noteRelayed()
 	w.connects++
 	w.touched[src.idx], w.touched[dst.idx] = true, true
 	inboxBefore := len(dst.inbox)
@@ -383,7 +386,7 @@ type batchCtx struct {
 func (w *world) judgeConnect(s, d int, st pbv2.Status, t0, t1 time.Duration, faulted bool, hop hopPlan, in *incoming, b *batchCtx) {
 	c, m := w.cfg, w.m
 	sn, dn := c.name(s), c.name(d)
-	relayed := w.cl[s].relayed
+	relayed := w.relNow[s]
 	aclDeny := c.denySrc == s && c.denyDst == d
 	defRsv := m.defLive(d, t1)
 	maybeRsv := m.maybeThere(d, t0)
@@ -464,6 +467,12 @@ func (w *world) judgeConnect(s, d int, st pbv2.Status, t0, t1 time.Duration, fau
 			}
 		}
 	case pbv2.Status_CONNECTION_FAILED:
+		// CONNECTION_FAILED means the relay tried to reach the destination, i.e. the request passed the reservation
+		// check. Without a reservation (never made, dropped with the peer's disconnect, collected) that must not
+		// happen ("a later CONNECT to it fails with NO_RESERVATION").
+		if !maybeRsv && !faulted && b == nil && !relayed && !aclDeny {
+			w.violate("C11/connect-admitted-without-reservation/"+m.whyNone(d), "%s -> %s: the relay tried to reach %s (CONNECTION_FAILED) although it holds no reservation (%s): %s", sn, dn, dn, m.whyNone(d), w.rsvDump())
+		}
 		// the destination did not complete the stop handshake: fine when it was told to misbehave, is
 		// not connected, has no stop handler, or a fault was injected
 		dcl := w.cl[d]
@@ -542,6 +551,7 @@ func (w *world) doConnectReal(op opT) string {
 		return "skipped (source not connected)"
 	}
 	w.takeDisc()
+	w.noteRelayed()
 	w.connects++
 	src.nd.Swarm.Backoff().Clear(dst.nd.ID)
 	src.nd.PS.ClearAddrs(dst.nd.ID)
@@ -811,7 +821,111 @@ func (w *world) audit(where string) {
 		}
 		if _, ok := tg["relay-reservation"]; ok && w.m.rsv[cl.idx] == nil && !w.leakReported["rsv-tag"] {
 			w.leakReported["rsv-tag"] = true
-			w.violate("C11/connmgr-tag-left/relay-reservation", "%s: %s holds no reservation (%s) but is still tagged %s; history: %v", where, w.cfg.name(cl.idx), w.m.whyNone(cl.idx), tagString(tg), w.hist)
+			class := "C11/connmgr-tag-left/relay-reservation"
+			if w.m.whyNone(cl.idx) == "after-disconnect" && w.relayedOnly(cl) {
+				// the reservation went away with the peer's last direct connection while a limited (relayed) connection
+				// keeps the connection manager's entry alive: only an explicit UntagPeer could remove the tag
+				class += "/limited-connection-remains"
+			}
+			w.violate(class, "%s: %s holds no reservation (%s) but is still tagged %s; history: %v", where, w.cfg.name(cl.idx), w.m.whyNone(cl.idx), tagString(tg), w.hist)
 		}
 	}
+}
+
+// ---- X with a direct connection next to its relayed one ----------------------------------------
+
+func (w *world) xConns(X *cli) (direct, relayed []network.Conn) {
+	for _, cn := range X.nd.Swarm.ConnsToPeer(w.R.nd.ID) {
+		if isCircuit(cn.RemoteMultiaddr()) {
+			relayed = append(relayed, cn)
+		} else {
+			direct = append(direct, cn)
+		}
+	}
+	return
+}
+
+// doXDirect: X, connected through R2, forces an additional direct connection to the relay (requests then
+// travel over the direct one), optionally followed by a RESERVE.
+func (w *world) doXDirect(op opT) string {
+	X, R := w.cl[op.a], w.R
+	direct, relayed := w.xConns(X)
+	if len(relayed) == 0 {
+		// the relayed connection has to exist first (a second connection can only be forced from relayed to direct)
+		if len(direct) > 0 {
+			X.nd.Swarm.ClosePeer(R.nd.ID)
+			simrt.WaitIdle()
+			w.endCircuitsOf(X.idx)
+			w.applyDisc(w.takeDisc(), nil)
+			direct = nil
+		}
+		if !w.ensure(X) {
+			return "skipped (no connection through R2)"
+		}
+	}
+	out := "already direct"
+	if len(direct) == 0 {
+		w.xGater.allowDirect = true
+		X.nd.PS.AddAddrs(R.nd.ID, []ma.Multiaddr{R.nd.Addr}, time.Hour)
+		X.nd.Swarm.Backoff().Clear(R.nd.ID)
+		ctx, cancel := w.ctx(30 * time.Second)
+		_, err := X.nd.Swarm.DialPeer(network.WithForceDirectDial(ctx, "c11"), R.nd.ID)
+		cancel()
+		w.xGater.allowDirect = false
+		simrt.WaitIdle()
+		if err != nil {
+			w.logf("   forced direct dial failed: %v", err)
+			return "direct dial failed"
+		}
+		out = "direct connection added"
+	}
+	w.applyDisc(w.takeDisc(), nil)
+	d, r := w.xConns(X)
+	out += fmt.Sprintf(" (direct=%d relayed=%d)", len(d), len(r))
+	if len(d) > 0 && len(r) > 0 {
+		w.o.Probe("x-direct-and-relayed")
+	}
+	if op.refresh {
+		out += "; reserve: " + w.doReserve(opT{kind: opReserve, a: op.a, raw: op.raw})
+	}
+	return out
+}
+
+func (w *world) endCircuitsOf(i int) {
+	for _, cc := range w.m.circs {
+		if cc.state != circClosed && (cc.s == i || cc.d == i) {
+			w.endCircuit(cc)
+		}
+	}
+	simrt.WaitIdle()
+}
+
+// doXDropDirect: X closes its direct connection(s). If a LIMITED relayed connection is all that remains the
+// peer is no longer connected in the sense of network.Connectedness and its reservation is gone (the
+// relay-side notifiee of the harness applies exactly that rule); through an unlimited R2 it stays connected.
+func (w *world) doXDropDirect(op opT) string {
+	X := w.cl[op.a]
+	direct, relayed := w.xConns(X)
+	if len(direct) == 0 {
+		return "no direct connection"
+	}
+	held := w.m.rsv[X.idx] != nil
+	for _, cn := range direct {
+		cn.Close()
+	}
+	simrt.WaitIdle()
+	w.endCircuitsOf(X.idx)
+	disc := w.takeDisc()
+	w.applyDisc(disc, nil)
+	out := fmt.Sprintf("closed %d direct, %d relayed remain, relay sees peer disconnected=%v", len(direct), len(relayed), disc[X.idx])
+	if held && disc[X.idx] && len(relayed) > 0 {
+		w.o.Probe("x-reservation-dropped-limited-connection-remains")
+	}
+	if held && !disc[X.idx] {
+		w.o.Probe("x-reservation-kept-unlimited-relayed-connection")
+	}
+	if op.refresh {
+		out += "; connect: " + w.doConnect(opT{kind: opConnect, a: op.b, b: op.a, fwd: 4, back: 4})
+	}
+	return out
 }
